@@ -107,6 +107,29 @@ CLAIMED = {
             "shape (k,2), distinct available pairs, k = clipped batch size, utilities NaN at unavailable and earlier "
             "pairs, per-sample counts; a watchdog turns non-termination into an unmatched event.",
             "DESIGN.md 5 (C07)", TRUST),
+    "C08": ("TLA+ module Addressing (mapping/scatter bookkeeping of the three candidate addressings, ModeEquiv; "
+            "deviation PositionInsteadOfId) model-checked by TLC; paired observations of the real strategies validated "
+            "by EquivTrace",
+            "TLC checks on the model that a sample's reported utility is the same under candidates=None, index "
+            "candidates in any order and feature rows for all pools up to 4 samples and all score functions, and that "
+            "indexing by candidate position instead of sample identity breaks it; every registered strategy is then "
+            "queried on TLC-enumerated scenarios under the three addressings (and, for strategies that score samples "
+            "independently, under random index subsets in shuffled order and under row permutations of (X, y)); TLC "
+            "compares the first-step utilities per sample identity in fixed point and the selection whenever the "
+            "best utility is unique.",
+            "DESIGN.md 5 (C08)", TRUST),
+    "C20": ("TLA+ module Wrappers (sub-sample / reduce / inner query / retranslate index algebra; deviation Unsorted) "
+            "model-checked by TLC; WrappersTrace validates the recorded inner call against the wrapper's result; "
+            "EquivTrace validates the parallel wrapper against the wrapped strategy",
+            "TLC checks the index-space algebra of the sub-sampling wrapper for all pools up to 4 samples (sub-sample "
+            "of the documented size, wrapped utilities on it, -inf on other candidates, NaN elsewhere, selection from "
+            "the sub-sample) and that dropping the sort breaks it; on the real code the call the wrapper makes to "
+            "the wrapped strategy is recorded and TLC validates the wrapper's result against it in the caller's index "
+            "space for None / index / feature-row candidates, integer and fractional max_candidates and both "
+            "exclude_non_subsample settings; the parallel wrapper's utilities and selection are compared with the "
+            "wrapped strategy's for n_jobs in {1,2,3,-1}; SingleAnnotatorWrapper's sample order is compared with the "
+            "wrapped strategy's ranking.",
+            "DESIGN.md 5 (C20)", TRUST),
 }
 
 NOT_YET = {}
